@@ -1,5 +1,5 @@
 # Single source of truth for MANIFEST.json (bin/mkmanifest regenerates it).
-HOOK_COMMITS = ['ba9d497', '86002f7']
+HOOK_COMMITS = ['ba9d497', '86002f7', 'df75f69']
 NOTES = 'see DESIGN.md §9 (as built)'
 NOT_APPLICABLE = {}
 CLAIMS = {}
@@ -99,4 +99,11 @@ CLAIMS['C20'] = dict(
     ref='DESIGN.md §4 C20',
     note='observations are behavioural; watchdog expiry and unobservable settings are inconclusive, never a violation; huge-but-parseable sizes are not exercised; six defects repaired in /repo (58648b0, 45994e6, ec793b1, f619716), the count-limit-0 documentation mismatch (shared with C17) is listed in known_findings/C20.json',
     technique='TLA+ precedence model with admissible-outcome sets, TLC enumeration with case replay on the real exporters/SDK + TLC trace validation of random configurations',
+)
+
+CLAIMS['C15'] = dict(
+    text='LifecycleModel.tla is a pure relational model of the trace, metric and log provider lifecycles (register/unregister, shutdown exactly once per component, no-op handles and documented errors after Shutdown, nil-exporter configurations; several successors admitted where the statement is silent); TPLifecycle/MPLifecycle/LPLifecycle.tla explore every operation sequence up to a bound and export edges; TPConc.tla is a lock-level spec of concurrent Register/Unregister/Shutdown callers (TLC exhaustive incl. liveness, a NoKnown config finds the pre-repair deviation). Every edge is replayed on the three real providers with recording processors/readers/exporters (nil-exporter configurations one subprocess per edge so a background crash is an exit status); seeded random concurrent scenarios and directed gate schedules (BSP hooks) are validated by TLC against the total contract LifecycleContract.tla; C01\'s BSP.tla Stuck property covers blocking forever at model level.',
+    ref='DESIGN.md §4 C15',
+    note='a call counts as blocked forever only if every call in flight is parked in identical SDK frames for 5 s across >= 20 goroutine dumps; re-registration of a processor is not modelled; stock log components get cancelled contexts only under the tolerant contract; seven defects were repaired in /repo (2b20e86, c611340, 8f1b35e, ada0bc0, b340635, cbb61d5)',
+    technique='TLA+ relational lifecycle model + lock-level concurrent spec, TLC edge replay on the three real providers (subprocess isolation) + TLC trace validation of concurrent scenarios',
 )
